@@ -67,15 +67,15 @@ struct Sut {
     clock: Arc<Clock>,
 }
 
-fn ver(v: (u8, u8, u16)) -> Version {
+fn mkver(v: (u8, u8, u16)) -> Version {
     Version::new(v.0, v.1, v.2)
 }
 
 fn new_sut(rt: &tokio::runtime::Runtime, key: u8, n_static: usize) -> Sut {
     let (pk, sk) = keypair(key);
     let mut w = Wallet::new(sk, pk);
-    w.core_version = ver(MY_CVER);
-    w.wallet_version = ver(MY_WVER);
+    w.core_version = mkver(MY_CVER);
+    w.wallet_version = mkver(MY_WVER);
     let wallet = Arc::new(RwLock::new(w));
     let mut c = Params::default().cfg();
     for i in 0..n_static {
@@ -549,8 +549,8 @@ impl<'a> Ctx<'a> {
                     block_fetch_url: "http://peer/".to_string(),
                     challenge: self.sh.bytes_of(echo_id),
                     services: vec![],
-                    wallet_version: ver(wv),
-                    core_version: ver(cv),
+                    wallet_version: mkver(wv),
+                    core_version: mkver(cv),
                 };
                 let bytes = Message::HandshakeResponse(r).serialize();
                 Real::Deliver(*c, bytes)
